@@ -224,6 +224,8 @@ def decode(code):
         if t["lvl"] == 1 and not (case["derived"] and i == 1):
             continue
         op = ["pyw", "ntw", "pyr", "ntr"][kind]
+        if op == "ntr" and v == 11 and owner != "robot" and not any(o[0] == "rebind" and o[1] == i for o in ops):
+            op = "rebind"
         ops.append([op, i, t["a"]] + ([value_for(t["kind"], v)] if op in ("pyw", "ntw") else []))
     case["ops"] = ops
     return case
@@ -342,6 +344,7 @@ class C09(Lab):
                 # nothing else may appear under the owners' prefixes with these attribute names
             check_all("after-setup: setup_tunables")
             ntw = 0
+            names_now = list(case["names"])
             for op in case["ops"]:
                 kind_, i, a = op[0], op[1], op[2]
                 if (i, a) not in present:
@@ -354,6 +357,27 @@ class C09(Lab):
                     except Exception as e:
                         raise exc_violation("C09", e, f"assigning {op[3]!r} to {a}; case: {case}")
                     model[key] = op[3]
+                elif kind_ == "rebind":
+                    # the object is set up again under ANOTHER name (a component instance handed to a second robot in
+                    # a test, an autonomous mode renamed): from then on it lives under the new name
+                    newname = case["names"][i] + " rebound"
+                    try:
+                        setup_tunables(objs[i], newname, owner)
+                    except Exception as e:
+                        raise exc_violation("C09", e, f"setup_tunables under a second name; case: {case}")
+                    names_now[i] = newname
+                    redecl_ = {t_["a"]: t_ for t_ in case.get("redecl", [])}
+                    for (i2, a2) in list(present):
+                        if i2 != i:
+                            continue
+                        eff2 = redecl_.get(a2, tun[a2]) if (case["derived"] and i == 1) else tun[a2]
+                        model.pop(present[(i2, a2)], None)  # what the old key holds now is not specified
+                        n = newname
+                        prefix = f"/{case['owner']}/{n}"
+                        key2 = prefix + (f"/{eff2['sub']}" if eff2.get("sub") else "") + "/" + a2
+                        present[(i2, a2)] = key2
+                        model[key2] = eff2["default"]
+                        subs[key2] = inst.getTopic(key2).genericSubscribe()
                 elif kind_ == "ntw":
                     if key not in pubs:
                         pubs[key] = publisher_for(inst, t["kind"], key)
